@@ -16,6 +16,10 @@ PROPS = {
     "C09": {"streams": [S("table", 2000, 8000)], "projection": "full"},
     "C15": {"streams": [S("strtab", 2000, 20000), S("utf8", 500, 5000)], "projection": "full"},
     "C10": {"streams": [S("ident", 800, 4000)], "projection": "full"},
+    "C03": {"streams": [S("file", 150, 1500), S("sweep", 1, 3)], "projection": "parts:open=,S,P,T="},
+    "C05": {"streams": [S("file", 150, 1500), S("sweep", 1, 3), S("bigfile", 1, 1)], "projection": "parts:open=,T=,Y=,D=,d=,V=,S0="},
+    "C18": {"streams": [S("prefix", 40, 400)], "projection": "full"},
+    "C20": {"streams": [S("file", 150, 1500), S("sweep", 1, 3)], "projection": "parts:open=,C=,Y=,D=,d=,N=,H=,S,P"},
     "C01": {
         "streams": [S("int", 1500, 10000), S("parse", 1500, 8000), S("table", 800, 4000), S("strtab", 800, 6000),
                     S("ident", 400, 2000), S("notes", 300, 3000), S("sysv", 120, 1000), S("gnu", 120, 1000),
@@ -93,6 +97,46 @@ LEVEL_TEXT["C01"] = {
             "Tied to the code by differential runs of all streams under catch_unwind.",
     "note": COMMON_NOTE + " Not modelled: stack exhaustion and allocation-failure aborts (the slice parser has no recursion and no allocation), 32-bit usize.",
     "technique": "Lean 4 proof of totality over a panic-tracking executable model + differential correspondence under catch_unwind",
+}
+
+LEVEL_TEXT["C03"] = {
+    "text": "Slices are windows (buf,start,stop) of the caller's buffer, so location is part of the value. Complete equations: uncompressed "
+            "section data = ok [sh_offset, sh_offset+sh_size) iff the range fits without usize overflow, else SliceReadError/IntegerOverflow; "
+            "SHT_NOBITS = empty; compressed = Chdr parsed at sh_offset plus payload [sh_offset+chdr_size, sh_offset+sh_size), error if shorter "
+            "than the header; segment data = [p_offset, p_offset+p_filesz) and independent of p_memsz; typed views hand out section_data's "
+            "window; string-table entries start at table.start+off in the same buffer. Tied to the code by comparing (ptr-base,len) of every "
+            "returned slice with the model's window, and by an oracle recomputing the range from the parsed header.",
+    "note": COMMON_NOTE,
+    "technique": "Lean 4 proof over window-valued model + differential correspondence on pointer offsets",
+}
+LEVEL_TEXT["C05"] = {
+    "text": "find_shdrs/find_phdrs are proved equal to the gABI location rule written with plain arithmetic: absent iff e_shoff/e_phoff = 0; "
+            "count = e_shnum or shdr[0].sh_size when e_shnum = 0 (e_phnum / shdr[0].sh_info at 0xffff); BadEntsize(found,expected) unless the "
+            "declared entry size is the class's generated size_for; table = window [off, off+n*size) iff it fits without overflow; the located "
+            "table has exactly n entries; e_shstrndx / shdr[0].sh_link rule for the name table; entsize rejection theorems for symbol tables "
+            "and the slice parser's dynamic table. Correspondence on generated files incl. counts crossing 0xff00/0xffff and every single-"
+            "field corruption of one object per run.",
+    "note": COMMON_NOTE + " The stream parser's locator (different validation order) is covered under C07.",
+    "technique": "Lean 4 proof (definition = gABI rule) + differential correspondence + builder ground-truth oracle",
+}
+LEVEL_TEXT["C18"] = {
+    "text": "Monotonicity theorems for the prefix order on windows (same buffer, smaller stop): range reads, integer reads, every generated "
+            "struct program, find_shdrs/find_phdrs, minimal_parse (prefix opens => whole file opens to the same header and the same table "
+            "windows), section_data, segment_data, typed sections, section_headers_with_strtab, symbol tables: an Ok answer on the prefix is "
+            "the answer on the whole file; corollary: error-or-same. Correspondence runs the model on a genuinely truncated copy of each "
+            "generated file at many prefix lengths (all lengths for a third of the files in thorough) and on files with appended bytes.",
+    "note": COMMON_NOTE + " Accessors not yet covered by a monotonicity theorem (find_common_data, symbol_version_table, notes views, dynamic) are covered by the correspondence and the per-query oracle only.",
+    "technique": "Lean 4 proof of monotonicity in the prefix order + differential correspondence on every sampled prefix",
+}
+LEVEL_TEXT["C20"] = {
+    "text": "Theorems: every typed view (strtab, rel, rela, notes, dynamic, segment notes) returns UnexpectedSectionType/SegmentType(found, "
+            "expected) on a type mismatch and otherwise iterates exactly section_data's window from offset 0; section_header_by_name equals "
+            "`first index in table order whose NUL-terminated UTF-8 name equals the query` (entries with unreadable names skipped), proved "
+            "through the iterator/get coherence of C09; the dynamic table through .dynamic equals the one through PT_DYNAMIC when both "
+            "designate the same bytes. find_common_data vs targeted accessors is checked by correspondence and a cross-comparison oracle "
+            "(theorem pending).",
+    "note": COMMON_NOTE,
+    "technique": "Lean 4 proof + differential correspondence + accessor cross-comparison oracle",
 }
 
 # every property not yet claimed is listed here with the reason; entries disappear as checks land
